@@ -240,3 +240,34 @@ Proof.
   apply Ok_inj in E. inversion E; subst. cbn [tm_sph tm_sec tm_src].
   rewrite Eh, Es. cbn [bind]. rewrite Ec. cbn [bind]. eexists. reflexivity.
 Qed.
+
+(* ================= the generic space-packet view never carries a stale CRC ================= *)
+(* whatever CRC is cached in the object (after pack / calc_crc / unpack followed by any setter),
+   to_space_packet().pack() yields exactly the octets pack() yields *)
+Theorem tc_space_packet_view_any t p t' :
+  sph_valid (tc_sph t) -> shf (tc_sph t) = 1 -> tc_pack t = Ok (p, t') ->
+  tc_to_space_packet_pack t = Ok p.
+Proof.
+  intros V S E. unfold tc_pack in E. rewrite sph_pack_layout in E by assumption. cbn [bind] in E.
+  destruct (tcsec_pack (tc_sec t)) as [sb|] eqn:Es; [|discriminate]. cbn [bind] in E.
+  destruct (struct_pack 2 _) as [cb|] eqn:Ec; [|discriminate]. cbn [bind] in E.
+  apply Ok_inj in E. apply pair_equal_spec in E. destruct E as [<- <-].
+  unfold tc_to_space_packet_pack, tc_calc_crc. rewrite sph_pack_layout by assumption. cbn [bind].
+  rewrite Es. cbn [bind]. rewrite Ec. cbn [bind tc_sec tc_crc tc_sph tc_app]. rewrite Es. cbn [bind].
+  rewrite space_packet_pack_spec by assumption. set (L := sph_layout (tc_sph t)). rewrite S.
+  f_equal. rewrite <- !app_assoc. reflexivity.
+Qed.
+
+Theorem tm_space_packet_view_any t p t' :
+  sph_valid (tm_sph t) -> shf (tm_sph t) = 1 -> tm_pack t = Ok (p, t') ->
+  tm_to_space_packet_pack t = Ok p.
+Proof.
+  intros V S E. unfold tm_pack in E. rewrite sph_pack_layout in E by assumption. cbn [bind] in E.
+  destruct (tmsec_pack (tm_sec t)) as [sb|] eqn:Es; [|discriminate]. cbn [bind] in E.
+  destruct (struct_pack 2 _) as [cb|] eqn:Ec; [|discriminate]. cbn [bind] in E.
+  apply Ok_inj in E. apply pair_equal_spec in E. destruct E as [<- <-].
+  unfold tm_to_space_packet_pack, tm_calc_crc. rewrite sph_pack_layout by assumption. cbn [bind].
+  rewrite Es. cbn [bind]. rewrite Ec. cbn [bind tm_sec tm_crc tm_sph tm_src]. rewrite Es. cbn [bind].
+  rewrite space_packet_pack_spec by assumption. set (L := sph_layout (tm_sph t)). rewrite S.
+  f_equal. rewrite <- !app_assoc. reflexivity.
+Qed.
